@@ -328,9 +328,11 @@ Proof. eexists. split; [vm_compute; reflexivity|]. split; [vm_compute; reflexivi
    value (and, by the class theorems, re-writes identically).  Unconditional for EffectsLayer and its six records,
    BrightnessContrast / ColorBalance / Exposure / HueSaturation / SelectiveColor / PhotoFilter, ChannelMixer, Levels,
    Curves, GradientMap, vector paths + VectorMaskSetting, Patterns (byte lists, codec_ok).  For the descriptor family
-   (DescriptorBlock / DescriptorBlock2, ColorLookup, VectorStrokeContentSetting and every descriptor value, any depth)
+   (DescriptorBlock / DescriptorBlock2, ColorLookup, VectorStrokeContentSetting, LinkedLayer and every descriptor value,
+   any depth)
    under the exact guard [dguard]: finding F-C02-7. *)
 From PsdV Require Import Psd.Typed Psd.Effects Psd.Descriptor Psd.Adjust Psd.Vector Psd.Patterns Psd.ResavePayload.
+From PsdV Require Psd.Linked.
 
 Theorem effects_layer_resave : forall b l s n,
   read_effects b = Ok l -> write_effects l = Ok (s, n) -> read_effects s = Ok l.
@@ -391,6 +393,17 @@ Theorem stroke_content_resave : forall units t b key version d t' pad s n,
 Proof. exact vscg_resave. Qed.
 Print Assumptions stroke_content_resave.
 
+(* LinkedLayer (one item of 'lnkD' / 'lnk2' / 'lnk3' / 'lnkE'), versions 1..7, data / external / alias: the optional
+   fields the reader takes by version are exactly the ones the writer emits; guard = the descriptor guard on its two
+   descriptor blocks (and embedded data below 2^63 bytes) *)
+Theorem linked_layer_resave : forall enc_s dec_s, codec_ok enc_s dec_s ->
+  forall units t b l t' r pad s n tail,
+    Linked.read_linked dec_s units t b = Ok (l, t', r) -> lguard t' l = true ->
+    Linked.write_linked enc_s t' pad l = Ok (s, n) ->
+    exists rest', Linked.read_linked dec_s units t' (s ++ tail) = Ok (l, t', rest').
+Proof. exact linked_resave. Qed.
+Print Assumptions linked_layer_resave.
+
 (* F-C02-7: a DescriptorBlock whose input ends inside its last key (an Enumerated value 'Ornt' . 'H', the length field of the
    enum key is 0 = "a 4-byte term follows", one byte is left).  read_length_and_key takes the single byte as the key and
    ADDS it to the term set; the writer emits it as a term (length 0) and pads the block; the re-read takes 'H\0\0\0'. *)
@@ -442,8 +455,8 @@ Qed.
 
 (* ------------------------------------------------------------------ the PSDImage level: PSDImage.open(b) then save() without edits
    (Psd/ResaveApi.v; the tree model is C08's Tree/Build.v).  save() = _update_record (returns at once while nothing was
-   edited) + PSD.write of the structure read: [api_save] IS [write_psd], so whenever the constructor succeeds everything
-   above applies unchanged.  What is proved here: when the constructor succeeds and when not, that opening (and even a
+   edited) + PSD.write of the structure read: [api_save] is [write_psd] (of the structure with its section-divider payloads
+   re-serialised by their class, [api_norm]), so whenever the constructor succeeds everything above applies.  What is proved here: when the constructor succeeds and when not, that opening (and even a
    forced rebuild of the record list) keeps every record in place, and that the saved file opens again with the same tree. *)
 From PsdV Require Import Psd.ResaveApi Psd.ResaveApiProofs.
 From PsdV Require Tree.Build.
@@ -470,18 +483,21 @@ Print Assumptions api_rebuild_is_identity.
 
 (* the property at the PSDImage level: accepted by PSDImage.open, below 1 GiB, outside the three classes: save()
    succeeds, the saved bytes are accepted by PSDImage.open again with the SAME layer tree, the structure is equal,
-   and a second save() reproduces the bytes *)
+   and a second save() reproduces the bytes.  [lsct_canonical]: the section-divider payloads are what their class writes
+   (4 / 12 / 16 bytes, no stray tail) - the one payload PSDImage re-serialises; the correspondence covers the rest *)
 Theorem api_resave :
   forall enc_s dec_s, codec_ok enc_s dec_s ->
   forall pad b d f, bytes b -> 0 < pad -> 4 * len b + pad + 20 < 2 ^ 32 ->
-    read_psd dec_s b = Ok d -> api_open d = ApiOpened f -> resave_guard d = true ->
+    read_psd dec_s b = Ok d -> api_open d = ApiOpened f -> resave_guard d = true -> lsct_canonical d ->
     exists s n, api_save enc_s pad d = Ok (s, n) /\
-      exists d', read_psd dec_s s = Ok d' /\ eqv d d' /\ api_open d' = ApiOpened f /\ api_save enc_s pad d' = Ok (s, n).
+      exists d', read_psd dec_s s = Ok d' /\ eqv d d' /\ api_open d' = ApiOpened f /\ lsct_canonical d' /\
+                 api_save enc_s pad d' = Ok (s, n).
 Proof.
-  intros enc_s dec_s Hc pad b d f Hb Hp Hs Hr Ho Hg.
+  intros enc_s dec_s Hc pad b d f Hb Hp Hs Hr Ho Hg Hcan.
   destruct (resave enc_s dec_s Hc pad b d Hb Hp Hs Hr Hg) as (s & n & Hw & d' & H1 & H2 & H3).
-  exists s, n. split; [exact Hw|]. exists d'. split; [exact H1|]. split; [exact H2|]. split; [|exact H3].
-  unfold eqv in H2. subst d'. now rewrite api_open_after_write.
+  unfold api_save. rewrite Hcan. exists s, n. split; [exact Hw|]. exists d'. split; [exact H1|]. split; [exact H2|].
+  unfold eqv in H2. subst d'. pose proof (lsct_canonical_after_write d Hcan) as Hcan'.
+  split; [now rewrite api_open_after_write|]. split; [exact Hcan'|]. now rewrite Hcan'.
 Qed.
 Print Assumptions api_resave.
 
@@ -498,12 +514,13 @@ Definition wa1 : list Z := w_api [w_api_rec (w_lsct 3); w_api_rec (w_lsct 3); w_
 Definition wa2 : list Z := w_api [w_api_rec []; w_api_rec (w_lsct 1)].
 Definition wa3 : list Z := w_api [w_api_rec (w_lsct 3); w_api_rec []].
 Example api_open_outcomes_witnesses :
-  (exists d f, read_psd raw_codec wa1 = Ok d /\ api_open d = ApiOpened f /\ length f = 1%nat /\ resave_guard d = true) /\
+  (exists d f, read_psd raw_codec wa1 = Ok d /\ api_open d = ApiOpened f /\ length f = 1%nat /\ resave_guard d = true /\ lsct_canonical d) /\
   (exists d, read_psd raw_codec wa2 = Ok d /\ api_open d = ApiRaised 4) /\
   (exists d, read_psd raw_codec wa3 = Ok d /\ api_open d = ApiRaised 99).
 Proof.
   split; [|split].
-  - do 2 eexists. split; [vm_compute; reflexivity|]. split; [vm_compute; reflexivity|]. split; reflexivity.
+  - do 2 eexists. split; [vm_compute; reflexivity|]. split; [vm_compute; reflexivity|]. split; [reflexivity|].
+    split; [reflexivity|vm_compute; reflexivity].
   - eexists. split; [vm_compute; reflexivity|vm_compute; reflexivity].
   - eexists. split; [vm_compute; reflexivity|vm_compute; reflexivity].
 Qed.
